@@ -85,8 +85,9 @@ theorem plan_rejected_calls (s : Img) (op : Op) (now : Int)
     · -- rejected: the loop issued no call
       left
       unfold deleteObjectsPlan at *
-      rcases Sel.noErr_or_errOf sel with hs | ⟨e', he⟩
-      · rw [deleteLoop_closed ph sel hs] at h ⊢
+      cases hfe : sel.firstErr ph s.rds with
+      | none =>
+        rw [deleteLoop_closed ph sel z _ _ _ _ _ hfe] at h ⊢
         simp only [List.nil_append, Bool.false_or] at h ⊢
         cases hany : s.rds.any (hit ph sel) with
         | true => simp [hany] at h
@@ -95,8 +96,8 @@ theorem plan_rejected_calls (s : Img) (op : Op) (now : Int)
             simp only [List.any_eq_false] at hany
             exact List.filter_eq_nil_iff.mpr (fun x hx => by simpa using hany x hx)
           simp [this]
-      · rw [deleteLoop_err ph sel e' he]
-        cases s.rds.any (·.used) <;> simp
+      | some e' =>
+        rw [deleteLoop_err ph sel e' z _ _ _ _ _ hfe]
     · rw [hh] at h; simp at h
   | setPrim id t =>
     left
